@@ -51,6 +51,14 @@ type Result struct {
 // ErrWatchdog marks an exchange that did not finish within the watchdog.
 var ErrWatchdog = errors.New("rig watchdog fired")
 
+// StuckError reports an exchange that cannot complete: the client is still
+// waiting for its response while the whole system is quiescent.
+type StuckError struct{ Fingerprint string }
+
+func (e *StuckError) Error() string {
+	return "exchange stuck: client still waits for the response and nothing moves any more"
+}
+
 // NewRig builds and starts a proxy; setup installs modifiers.
 func NewRig(setup func(p *martian.Proxy)) *Rig {
 	g := &Rig{P: martian.NewProxy(), L: vh.NewPipeListener("10.1.1.1:8080", 1<<16), sc: map[string]*script{}}
@@ -175,11 +183,31 @@ func (g *Rig) Do(key string, reqWire []byte, reqMethod string, respWire []byte, 
 		br := bufio.NewReaderSize(cl, 8192)
 		res.Client, res.ClientErr = ReadMessage(br, true, reqMethod)
 	}()
+	done := func() bool {
+		select {
+		case <-fin:
+			return true
+		default:
+			return false
+		}
+	}
+	// Completion is decided by quiescence, not by a deadline: Stuck means the
+	// response is incomplete and every martian goroutine is parked with no byte
+	// moving at any harness endpoint.
+	out, fp := vh.Happened, ""
 	select {
-	case <-fin:
-	case <-time.After(watchdog):
+	case <-fin: // fast path
+	case <-time.After(2 * time.Second):
+		out, fp = vh.Await(done, vh.AwaitOpts{Watchdog: watchdog, Activity: func() string {
+			return fmt.Sprintf("%s c%d/%d", g.Activity(), cl.Sent(), cl.Received())
+		}})
+	}
+	if out != vh.Happened {
 		cl.Close()
 		<-fin
+		if out == vh.Stuck {
+			return nil, &StuckError{Fingerprint: fp}
+		}
 		return nil, ErrWatchdog
 	}
 	g.mu.Lock()
